@@ -623,14 +623,34 @@ pub fn load_test_strings(corpus_dir: &str) -> Vec<String> {
     std::fs::read_to_string(p).ok().and_then(|t| serde_json::from_str::<Vec<String>>(&t).ok()).unwrap_or_default()
 }
 
-/// test strings in new neighbourhoods: alone, every ordered pair (glued and separated by a line
-/// feed, thorough: also by `;`), and each one inside every nesting prefix
+/// test strings in new neighbourhoods: alone, truncated at every character, inside every nesting
+/// prefix and scanner template, before and after every atom of the union alphabet, and every
+/// ordered pair (glued; thorough: also separated by a line feed and by `;`)
 pub fn test_string_inputs(corpus_dir: &str, tier: Tier, pairs: bool) -> Vec<String> {
     let ts = load_test_strings(corpus_dir);
     let mut v: Vec<String> = ts.clone();
     for (p, closers) in SEEDS {
         for t in &ts {
             v.push(format!("{p}{t}{}", closers[closers.len() - 1]));
+        }
+    }
+    for (p, sfx) in crate::templates::SCANNER_TEMPLATES {
+        for t in &ts {
+            v.push(format!("{p}{t}{sfx}"));
+        }
+    }
+    // every truncation of every snippet, and every snippet before and after every atom of the
+    // union alphabet
+    let atoms = s9();
+    for t in &ts {
+        for (i, _) in t.char_indices().skip(1) {
+            v.push(t[..i].to_string());
+        }
+        if pairs {
+            for a in &atoms {
+                v.push(format!("{t}{a}"));
+                v.push(format!("{a}{t}"));
+            }
         }
     }
     if pairs {
